@@ -21,6 +21,11 @@ def run(ctx):
     rule_pubkey(ctx, repo)
     rule_wif(ctx, repo)
     rule_no_self_mutation(ctx, repo)
+    rd = ctx.rule('C13.F1', 'a key built without the flag is compressed (the documented default of CKey / from_secret_bytes)', engine='CONST', floor=2)
+    common.rule_defaults(rd, repo, [
+        ('bitcoin.wallet.CKey.__init__', 'compressed', True, 'CKey(secret) derives the uncompressed public key: another key encoding and another address than documented'),
+        ('bitcoin.wallet.CBitcoinSecret.from_secret_bytes', 'compressed', True, 'from_secret_bytes(secret) yields the uncompressed WIF and public key'),
+    ])
     r = ctx.rule('C13.I2', 'constant indices into key / signature byte strings are guarded by a length test on every path', engine='GUARD', floor=1)
     fs = [f for q, f in sorted(repo.functions.items()) if q.startswith(('bitcoin.wallet.CBitcoinSecret.', 'bitcoin.wallet.CKey.', 'bitcoin.core.key.CPubKey.', 'bitcoin.core.key.CECKey.'))]
     common.const_index_instances(r, repo, fs, what='a shorter byte string raises IndexError')
